@@ -1,7 +1,8 @@
 """Apply a unified diff to in-memory sources (pure Python: no `patch`/`git` needed, nothing written to disk).
 
 Used for the corpus of behaviour-preserving refactors (neutral/*.diff) and the seeded breaking changes (seeded/*/patch.diff):
-both are replayed against the *current* tree, so a diff that no longer applies is reported as `None` (skipped), never guessed."""
+both are replayed against the package snapshot they were made for (see CORPUS_BASE below); a diff that does not apply is reported as
+`None` (skipped), never guessed."""
 from __future__ import annotations
 
 import os
@@ -98,6 +99,55 @@ def patched_sources(diff_path, root="/repo", base=None):
             out[mod] = new
             touched = True
     return out if (touched or base) and out else None
+
+
+# The stored corpora (neutral/, feature/, seeded/) were made against - or rebased onto - one snapshot of the package, kept under
+# /verif/bases/<commit>/.  They are replayed against THAT snapshot, not against /repo, so that a later repair in /repo does not
+# invalidate them; what a check reports on the bare snapshot (defects repaired since) is subtracted from what it reports on
+# snapshot + diff: a stored diff is judged by what it ADDS.
+CORPUS_COMMIT = "e42fd5a"
+CORPUS_BASE = os.path.join(os.path.dirname(os.path.dirname(os.path.abspath(__file__))), "bases", CORPUS_COMMIT)
+
+
+def base_sources():
+    """{module: source} of the whole package at the corpus snapshot"""
+    d = os.path.join(CORPUS_BASE, PKG)
+    return {f[:-3]: open(os.path.join(d, f), encoding="utf-8").read() for f in sorted(os.listdir(d)) if f.endswith(".py")}
+
+
+def stored_sources(path):
+    """sources for a stored diff (file) or a stored seeded change (directory): the corpus snapshot with the diff applied; None if it
+    does not apply"""
+    src = seeded_sources(path, CORPUS_BASE) if os.path.isdir(path) else patched_sources(path, CORPUS_BASE)
+    if src is None:
+        return None
+    full = base_sources()
+    full.update(src)
+    return full
+
+
+_BASELINE = {}
+
+
+def baseline(prop, tier="quick"):
+    """what the check of `prop` reports on the bare corpus snapshot: (exact keys, (rule, function, diagnosis) triples)"""
+    if prop not in _BASELINE:
+        from .__main__ import analyse
+        from .core import HOLDS
+        try:
+            _mod, ctx = analyse(prop, "/repo", tier, sources=base_sources())
+            bad = [r for r in ctx.results if r.status != HOLDS]
+        except Exception:
+            bad = []
+        _BASELINE[prop] = ({r.key() for r in bad}, {(r.rule, r.func, r.msg[:50]) for r in bad})
+    return _BASELINE[prop]
+
+
+def added(prop, results):
+    """the results a stored diff adds to what the bare snapshot already gives"""
+    exact, loose = baseline(prop)
+    # the same clause on the same function with the same diagnosis (the construct quoted may be spelt differently after a refactor)
+    return [r for r in results if r.key() not in exact and (r.rule, r.func, r.msg[:50]) not in loose]
 
 
 def seeded_sources(seed_dir, root="/repo"):
